@@ -206,6 +206,32 @@ def run_many(jobs: list, projector_ref: str, procs: int = 16, keep_report: bool 
     return res
 
 
+def _job_chain(args):
+    jobs, projector_ref = args
+    return [_job((text, projector_ref, tag)) for tag, text in jobs]
+
+
+def run_chains(chains: list, projector_ref: str, procs: int = 16, keep_report: bool = False) -> list:
+    """chains: list of lists of (tag, input text).  The members of a chain run one after the other in ONE process (a pool worker that
+    has typically served other chains before): whatever a run leaves behind in the process - a memo keyed by too few of its arguments,
+    a mutated default, a module-level table - is there for the next member, whose trace is then judged against its own input like any
+    other.  Returns the flat list of results in chain order."""
+    if not chains:
+        return []
+    res = _robust_map(_job_chain, [(list(c), projector_ref) for c in chains], procs)
+    flat = []
+    for c, r in zip(chains, res):
+        if r is None:
+            r = [{'tag': tag, 'status': 'rejected', 'error': 'worker process died (crash inside the simulator)', 'stages': [], 'input': text}
+                 for tag, text in c]
+        flat.extend(r)
+    if not keep_report:
+        for r in flat:
+            r.pop('report', None)
+            r.pop('json_text', None)
+    return flat
+
+
 def call_in_pool(fn_ref: str, items: list, procs: int = 16, fresh: bool = False) -> list:
     """Generic fan-out: fn_ref = 'module:function' applied to each item in worker processes.  With `fresh` every item runs in a
     process of its own (forked from a worker that never runs an item itself): nothing an earlier item left behind can show."""
